@@ -87,8 +87,12 @@ static void check_bits(void){
          if (d<-1e-9||d>TOL) CF("cache:bits_inconsistent_with_V","N=%d K=%d: cache says %d/8 bits, log2 V(N,K)=%.4f/8 bits (V=%llu)",N,K,row[q]+1,(double)(8.0L*log2l((long double)V)),(unsigned long long)V);
          h=mc_mix(h,row[q]);
       }
+#ifdef CUSTOM_MODES
+      mc_set_add(classes,h);       /* the custom part keeps its sample slots for the regeneration / fits_in32 cases */
+#else
       if (mc_set_add(classes,h) && (N==2||N==8||N==22||N==176||N==1))
          mc_sample("cache row N=%d (LM=%d band %d): %d pseudo-pulse entries, K up to %d, bits-1 = %d..%d, monotone, each within [0,%.1f]/8 bit above log2 V",N,i-1,j,row[0],get_pulses(row[0]),row[1],row[row[0]],TOL);
+#endif
    }
 }
 
